@@ -347,3 +347,179 @@ func emitCall(w *bufio.Writer, sc *scenario, id, reps int, kind, extra string) {
 func init() {
 	_ = os.Stderr
 }
+
+// ---------------------------------------------------------------- specialised families
+
+var cfgFail = func() genCfg { c := cfgGeneral; c.pFail = 45; c.pLeave = 2; c.maxDepth = 5; c.maxConvs = 7; return c }()
+var cfgSingle = func() genCfg {
+	c := cfgGeneral
+	c.multiIn = 0
+	c.pFail = 0
+	c.pLeave = 0
+	c.maxDepth = 4
+	return c
+}()
+var cfgAcyclic = func() genCfg { c := cfgGeneral; c.pFail = 0; c.pLeave = 0; return c }()
+var concreteTypes = []int{0, 1, 2, 3, 4, 5, 6}
+
+// genExact (C03): every target parameter has an exactly matching supplied value; everything else
+// is a distractor (extra inputs of the same type under other names/subtypes, converters and
+// providers producing the very same labels, same-named chains).
+func genExact(r *rng, c genCfg) *scenario {
+	c.types = concreteTypes
+	sc := &scenario{errOwner: map[int]int{}}
+	tIns := c.distinctLabels(r, 1+r.intn(3), r.chance(1, 3))
+	target := &fnSpec{ID: 0, Ins: tIns, Script: "ok", OForm: "pos", HasErr: r.chance(1, 2)}
+	target.Form = formFor(r, c, tIns)
+	target.Outs = []lab{{Ty: r.intn(4)}}
+	target.Dyn = []int{-1}
+	sc.Funcs = append(sc.Funcs, target)
+	vid := 0
+	for _, l := range tIns {
+		sc.Opts = append(sc.Opts, sc.supplyFor(r, c, l, &vid, true))
+		sc.Opts[len(sc.Opts)-1].Ty = l.Ty
+	}
+	var convIDs []int
+	for _, l := range tIns {
+		for k := 0; k < 3; k++ {
+			switch r.intn(6) {
+			case 0: // same type under another name / subtype
+				d := l
+				if r.chance(1, 2) {
+					d.Name = c.names[r.intn(len(c.names))]
+				}
+				d.Sub = []string{"", "x", "y", "s"}[r.intn(4)]
+				if d != l {
+					sc.Opts = append(sc.Opts, sc.supplyFor(r, c, d, &vid, true))
+					sc.Opts[len(sc.Opts)-1].Ty = d.Ty
+				}
+			case 1: // converter producing exactly this label from something available
+				src := c.randLabel(r, false)
+				f := c.newConv(r, sc, []lab{l}, []lab{src})
+				f.Script = "ok"
+				convIDs = append(convIDs, f.ID)
+				sc.Opts = append(sc.Opts, sc.supplyFor(r, c, src, &vid, true))
+			case 2: // provider of this label
+				f := c.newConv(r, sc, []lab{l}, nil)
+				f.Script = "ok"
+				convIDs = append(convIDs, f.ID)
+			case 3: // same-named value of another type with a subtype + named converter to this label
+				if l.Name != "" {
+					other := lab{Name: l.Name, Ty: (l.Ty + 1) % 7, Sub: "s"}
+					sc.Opts = append(sc.Opts, sc.supplyFor(r, c, other, &vid, true))
+					sc.Opts[len(sc.Opts)-1].Ty = other.Ty
+					f := c.newConv(r, sc, []lab{l}, []lab{{Name: l.Name, Ty: other.Ty}})
+					f.Script = "ok"
+					convIDs = append(convIDs, f.ID)
+				}
+			}
+		}
+	}
+	for _, id := range convIDs {
+		kind := "conv"
+		if sc.Funcs[id].Once || sc.Funcs[id].Form == "built" || r.chance(1, 2) {
+			kind = "convfunc"
+		}
+		sc.Opts = append(sc.Opts, optSpecC{Kind: kind, Fids: []int{id}})
+	}
+	p := r.perm(len(sc.Opts))
+	shuf := make([]optSpecC, len(sc.Opts))
+	for i, j := range p {
+		shuf[i] = sc.Opts[j]
+	}
+	sc.Opts = shuf
+	return sc
+}
+
+// genHopeless (C02 / C13): a general scenario in which one target parameter is made hopeless
+// (type 9 is never supplied nor produced) or merely underivable (a converter produces it but needs
+// something unavailable, possibly through a cycle).
+func genHopeless(r *rng, c genCfg) *scenario {
+	sc := genScenario(r, c)
+	t := sc.Funcs[0]
+	dead := lab{Ty: 9}
+	if r.chance(1, 2) {
+		dead.Name = c.names[r.intn(len(c.names))]
+		for _, l := range t.Ins {
+			if l.Name == dead.Name {
+				dead.Name = "zz"
+			}
+		}
+	}
+	if t.Form == "pos" {
+		dead.Name = ""
+	}
+	t.Ins = append(t.Ins, dead)
+	switch r.intn(3) {
+	case 0: // hopeless: nothing produces type 9
+	case 1: // a converter produces it but needs type 8, which nothing provides
+		f := c.newConv(r, sc, []lab{dead}, []lab{{Ty: 8}, c.randLabel(r, false)})
+		f.Script = "ok"
+		sc.Opts = append(sc.Opts, optSpecC{Kind: "convfunc", Fids: []int{f.ID}})
+	case 2: // a two-converter cycle 9 <- 8 <- 9
+		f := c.newConv(r, sc, []lab{dead}, []lab{{Ty: 8}})
+		g := c.newConv(r, sc, []lab{{Ty: 8}}, []lab{{Ty: 9}})
+		f.Script, g.Script = "ok", "ok"
+		sc.Opts = append(sc.Opts, optSpecC{Kind: "convfunc", Fids: []int{f.ID}}, optSpecC{Kind: "conv", Fids: []int{g.ID}})
+	}
+	return sc
+}
+
+// genAffinity (C07): the two documented priority families.
+func genAffinity(r *rng, c genCfg) (*scenario, string) {
+	sc := &scenario{errOwner: map[int]int{}}
+	T := r.intn(7)
+	S := (T + 1 + r.intn(5)) % 7
+	n := c.names[r.intn(len(c.names))]
+	target := &fnSpec{ID: 0, Ins: []lab{{Name: n, Ty: S}}, Script: "ok", OForm: "pos", Form: []string{"struct", "ptr", "built"}[r.intn(3)]}
+	sc.Funcs = append(sc.Funcs, target)
+	vid := 1
+	want := vid
+	sc.Opts = append(sc.Opts, optSpecC{Kind: "named", Name: n, Ty: T, Vid: vid})
+	var extra string
+	if r.chance(1, 2) {
+		// family A: one converter with a type-only input, several same-typed named inputs
+		others := []string{"m1", "m2", "m3", "m4", "m5", "m6"}
+		k := 1 + r.intn(6)
+		for i := 0; i < k; i++ {
+			vid++
+			sc.Opts = append(sc.Opts, optSpecC{Kind: "named", Name: others[i], Ty: T, Vid: vid})
+		}
+		out := lab{Ty: S}
+		if r.chance(1, 2) {
+			out.Name = n
+		}
+		f := c.newConv(r, sc, []lab{out}, []lab{{Ty: T}})
+		f.Script, f.Once = "ok", false
+		sc.Opts = append(sc.Opts, optSpecC{Kind: []string{"conv", "convfunc"}[r.intn(2)], Fids: []int{f.ID}})
+		if f.Form == "built" {
+			sc.Opts[len(sc.Opts)-1].Kind = "convfunc"
+		}
+		extra = fmt.Sprintf("fam=affA conv=%d want=%d", f.ID, want)
+	} else {
+		// family B: a type-only converter and one that uses the name
+		out1 := lab{Ty: S}
+		f1 := c.newConv(r, sc, []lab{out1}, []lab{{Ty: T}})
+		out2 := lab{Ty: S}
+		if r.chance(1, 2) {
+			out2.Name = n
+		}
+		f2 := c.newConv(r, sc, []lab{out2}, []lab{{Name: n, Ty: T}})
+		f1.Script, f2.Script, f1.Once, f2.Once = "ok", "ok", false, false
+		ids := []int{f1.ID, f2.ID}
+		if r.chance(1, 2) {
+			ids[0], ids[1] = ids[1], ids[0]
+		}
+		for _, id := range ids {
+			sc.Opts = append(sc.Opts, optSpecC{Kind: "convfunc", Fids: []int{id}})
+		}
+		extra = fmt.Sprintf("fam=affB want=%d not=%d", f2.ID, f1.ID)
+	}
+	p := r.perm(len(sc.Opts))
+	shuf := make([]optSpecC, len(sc.Opts))
+	for i, j := range p {
+		shuf[i] = sc.Opts[j]
+	}
+	sc.Opts = shuf
+	return sc, extra
+}
